@@ -18,13 +18,16 @@ pub fn new_box(area: &str) -> Option<Box<dyn VerifBox>> {
         "c17" => Some(Box::new(
             crate::protocol::libp2p::kademlia::verif_c17::StoreBox::new(),
         )),
+        "c15" => Some(Box::new(
+            crate::protocol::libp2p::kademlia::verif_c15::QueryBox::new(),
+        )),
         _ => None,
     }
 }
 
 /// Names of all adapters.
 pub fn areas() -> Vec<&'static str> {
-    vec!["c17"]
+    vec!["c17", "c15"]
 }
 
 /// Decode a hex string.
